@@ -83,7 +83,14 @@ Theorem C08_overall_none : forall courses parts a,
   comb_den (Z.of_nat (n_real parts)) 0 [] = Z.of_nat (n_real parts).
 Proof. exact comb_none. Qed.
 
-Check C08_external_instructors. Check C08_overall. Check C08_overall_none.
+(* the numerators are non-negative for every valid instance (each rated participant's penalty lies between 0 and WEIGHT_OFFSET), so the
+   unsigned subtraction `n * WEIGHT_OFFSET as usize - score as usize` of solution_quality / combined_quality cannot wrap *)
+Theorem C08_numerators_nonneg : forall courses parts a ni pens, Valid courses parts -> (forall z, In z pens -> (0 <= z)%Z) ->
+  (0 <= quality_num parts (score_of courses parts a))%Z /\
+  (0 <= comb_num (Z.of_nat (n_real parts)) (score_of courses parts a) ni pens)%Z.
+Proof. intros courses parts a ni pens V Hp. split; [apply quality_num_nonneg; exact V|apply comb_num_nonneg; assumption]. Qed.
+
+Check C08_external_instructors. Check C08_overall. Check C08_overall_none. Check C08_numerators_nonneg.
 Check C08_external_rank. Check C08_first_rank. Check C08_external_list. Check C08_score_node. Check C08_score. Check C08_quality. Check C08_max.
 Print Assumptions C08_score_node.
 Print Assumptions C08_score.
@@ -95,3 +102,4 @@ Print Assumptions C08_external_list.
 Print Assumptions C08_external_instructors.
 Print Assumptions C08_overall.
 Print Assumptions C08_overall_none.
+Print Assumptions C08_numerators_nonneg.
